@@ -14,6 +14,10 @@ Produce TWO different, small, realistic source changes ("seeded defects") to the
  (b) the existing pinned test suite still passes exactly as before (66 passing tests; many other test modules fail at collection already - that is the baseline and not your concern).
 Each change should look like a plausible regression a developer could introduce (an off-by-one, a dropped branch, a wrong condition, a missing call, a reordered step, an optimisation that is wrong in a corner case, a cache that is not invalidated, two sites that each look fine alone...). The two changes must use different mechanisms / code sites, and must break the property AS STATED (not a neighbouring behaviour).
 
+Do NOT use `git stash` (the stash is shared between all worktrees of the repository and other people work in sibling worktrees); to switch between changed and unchanged code use `git diff > /tmp/wt-{P}/_my.diff`, `git apply -R`, `git apply`.
+
+This is a late round: the obvious sites (wrong comparison in the main code path, dropped guard at the top of a method, a cache without invalidation) have been used already. Look for something different, e.g.: refusal / error paths that have a side effect before they refuse; two objects for the same thing (two node handles, two records of one file set, two containers, a kept object used after the container changed); operations called with an object instead of a path (or vice versa); unusual but documented argument forms; clean-up code; code that is only reached on the second call in one process; sub-classes overriding one of two methods that belong together.
+
 IMPORTANT: prefer changes that need something *specific* to manifest - a particular multi-step sequence of operations, a patch boundary or close/reopen at a particular point, a crash or storage fault at a particular point, an unusual input, state kept in one process across calls, or two cooperating sites - NOT changes that ordinary use would expose at once (e.g. not "every read returns garbage").
 
 ## The property
